@@ -737,11 +737,11 @@ Proof.
 Qed.
 
 Lemma ccmp_range a b : ccmp a b = -1 \/ ccmp a b = 0 \/ ccmp a b = 1.
-Proof. destruct a, b; unfold ccmp; simpl; try lia; try apply zcmp_range; apply lcmp_range. Qed.
+Proof. destruct a as [| | | | |[]|], b as [| | | | |[]|]; unfold ccmp; simpl; try lia; try apply zcmp_range; apply lcmp_range. Qed.
 Lemma ccmp_anti a b : ccmp b a = - ccmp a b.
-Proof. destruct a, b; unfold ccmp; simpl; try lia; try apply zcmp_anti; apply lcmp_anti. Qed.
+Proof. destruct a as [| | | | |[]|], b as [| | | | |[]|]; unfold ccmp; simpl; try lia; try apply zcmp_anti; apply lcmp_anti. Qed.
 Lemma ccmp_trans a b c : ccmp a b <= 0 -> ccmp b c <= 0 -> ccmp a c <= 0.
-Proof. destruct a, b, c; unfold ccmp; simpl; try lia; try apply zcmp_trans; apply lcmp_trans. Qed.
+Proof. destruct a as [| | | | |[]|], b as [| | | | |[]|], c as [| | | | |[]|]; unfold ccmp; simpl; try lia; try apply zcmp_trans; apply lcmp_trans. Qed.
 
 Lemma cmparr_range a : forall b, cmparr a b = -1 \/ cmparr a b = 0 \/ cmparr a b = 1.
 Proof.
